@@ -1181,8 +1181,13 @@ def _lflat(rng, schema, p=0.5, skip=(), nones=True):
     return o
 
 
-def _lrows(rng, schema, key, names, p=0.6):
+def _lrows(rng, schema, key, names, p=0.6, dup=False):
     rows = []
+    names = list(names)
+    if dup and names and rng.random() < 0.3:
+        # two rows with one key: an endpoint name on two protocols (service names are unique: supervisor
+        # directories are named after them)
+        names.append(rng.choice(names))
     for nm in names:
         r = _lflat(rng, schema, p, skip=(key,))
         r[key] = nm
@@ -1213,7 +1218,7 @@ def _lobj(rng, cls):
                     sv['restart'] = {k: rng.choice([0, 3, 5, 30, 60]) for k in ('limit', 'interval') if rng.random() < 0.6}
             o['services'] = svcs
         if rng.random() < 0.75:
-            o['endpoints'] = _lrows(rng, C._endpoint_schema, 'name', _lnames(rng, big=rng.random() < 0.15))   # pylint: disable=protected-access
+            o['endpoints'] = _lrows(rng, C._endpoint_schema, 'name', _lnames(rng, big=rng.random() < 0.15), dup=True)   # pylint: disable=protected-access
         if rng.random() < 0.7:
             o['environ'] = _lrows(rng, C._environ_schema, 'name', _lnames(rng), 0.9)   # pylint: disable=protected-access
         if rng.random() < 0.7:
